@@ -10,7 +10,7 @@ import symx.harness  # noqa (puts the repo on sys.path)
 import wannierberri.w90files.bkvectors as BK
 
 PROPERTY = "C22"
-FUNCTIONS = ["wannierberri.w90files.bkvectors.BKVectors.__init__ / from_kpoints / kpt_red", "wannierberri.w90files.bkvectors.BKVectors.find_G_and_neighbours", "BKVectors.get_shell_weights", "BKVectors.k_to_shells",
+FUNCTIONS = ["wannierberri.w90files.bkvectors.BKVectors.__init__ / from_kpoints / from_nnkp / kpt_red", "wannierberri.w90files.nnkp.parse_nnkp", "wannierberri.w90files.bkvectors.BKVectors.find_G_and_neighbours", "BKVectors.get_shell_weights", "BKVectors.k_to_shells",
              "BKVectors.find_bk_vectors", "BKVectors.get_projector_shell_cart", "bkvectors.is_parallel_shell"]
 BOUNDS = dict(
     quick=dict(neighbours="meshes up to 3x2x2; k-point order = symbolic permutation (z3 integers); b-vectors = symbolic integers in the search box [-2N,2N]; "
@@ -18,7 +18,8 @@ BOUNDS = dict(
                weights="complete sets of linearly independent shells (harness-selected, shortest first) of 6 concrete lattices (sc, fcc, bcc, hexagonal, orthorhombic, triclinic), also with the last shell dropped, with every shell stretched by a symbolic factor, or one fully symbolic +-b shell; "
                        "LAPACK svd output = unconstrained fresh atoms u, s, vh (one-shell sets: sc, fcc, bcc) or u=1, s=1, vh fresh, which still reaches every weight vector (all sets); bk_complete_tol symbolic in [1e-8,1e-3]",
                shells="6 lattices x meshes (1,1,1),(2,2,2),(2,2,1)/(3,2,1): kmesh_tol symbolic in [1e-9,1e-5]",
-               object="__init__: symbolic 3x3 reciprocal lattice and weights, meshes 2x3x4, 3x1x2; from_kpoints: mono/tric/hex 2x3x4, fcc 3x2x2, bcc 2x2x3, mono 3x3x2, seeded k-point order, symbolic kmesh_tol"),
+               object="__init__: symbolic 3x3 reciprocal lattice and weights, meshes 2x3x4, 3x1x2; from_kpoints: mono/tric/hex 2x3x4, fcc 3x2x2, bcc 2x2x3, mono 3x3x2, seeded k-point order, symbolic kmesh_tol",
+               nnkp="from_nnkp: hex 1x1x1 / ortho 2x2x1 / fcc 2x2x2 with every transposition of the shell-ordered neighbour list, sc 2x3x4 with every rotation, hex 2x2x1 and mono 2x3x4 seeded shuffles; other k-points listed in seeded orders"),
     thorough=dict(neighbours="meshes up to 4x3x2, 2 b's x 2 k's up to 6 points", weights="as quick, up to 4 shells", shells="as quick plus (3,3,3),(4,4,2)"))
 EXPLANATION = ("(a) The real find_G_and_neighbours runs on a k-point list whose order is a symbolic permutation of the mesh and on symbolic integer b-vectors; z3 (linear integer "
                "arithmetic with constant moduli) proves k+b = k_nb + G*mp for the neighbour it returns and that the 'no neighbour' exit is unreachable. "
@@ -27,14 +28,16 @@ EXPLANATION = ("(a) The real find_G_and_neighbours runs on a k-point list whose 
                "(c) The real k_to_shells / find_bk_vectors run on concrete lattices with a symbolic kmesh_tol: shells are whole (all mesh vectors of one length), closed under b->-b, "
                "weights equal on +-b, completeness holds. (d) The real BKVectors.__init__ runs on a fully symbolic reciprocal lattice (bk_cart must equal bk_grid.(recip_lattice[i]/mp_grid[i]) identically), "
                "and the whole from_kpoints pipeline builds the object on anisotropic meshes of monoclinic/triclinic/hexagonal/fcc/bcc lattices: the object's own bk_cart, wk, bk_grid, G, neighbours "
-               "must satisfy completeness, image, closure, whole shells and the neighbour identity.")
+               "must satisfy completeness, image, closure, whole shells and the neighbour identity. (e) The real BKVectors.from_nnkp reads a .nnkp text written by the harness (in-memory file) "
+               "whose neighbour list is the shell order with a symbolic transposition / rotation (z3 integers) or a seeded shuffle, with symbolic kmesh_tol; same obligations on the object, "
+               "plus bk_grid / neighbours / G in the order of the file.")
 ASSUMPTIONS = ["complete Gamma-centred mesh, each point once (find_G_and_neighbours)", "b-vectors inside the search box of find_bk_vectors (|b_i| <= 2 N_i)",
                "(b) only normally returning paths: the singular-value guard and the completeness guard may reject (string / RuntimeError as documented)",
                "(c) kmesh_tol in [1e-9,1e-5]; the 6 lattices x meshes of the family all possess a complete set of independent shells inside the search box (checked by the harness's own selection), so 'Could not find a complete set' counts as a violation there"]
-OUTSIDE = ["the shell search for EVERY lattice (argsort over >=124 symbolic norms and LAPACK SVD): only the concrete lattice family of (c)",
+OUTSIDE = [".nnkp neighbour lists beyond one symbolic transposition / rotation of the shell order and seeded shuffles (all NNB! orders)", "the shell search for EVERY lattice (argsort over >=124 symbolic norms and LAPACK SVD): only the concrete lattice family of (c)",
            "that LAPACK's svd is accurate (the weights are only required to pass the code's own completeness guard)", "meshes above the stated sizes",
            "perturbed k-point coordinates in find_G_and_neighbours (np.rint absorbs them; rounding is covered in C23)"]
-STUBS = ["np.linalg.svd on symbolic input: fresh unconstrained atoms of the right shapes (u (n,n), s (n,), vh (n,9)); variant 2: u=identity, s=ones, vh fresh",
+STUBS = ["open() in bkvectors: in-memory file holding the .nnkp text written by the harness", "np.linalg.svd on symbolic input: fresh unconstrained atoms of the right shapes (u (n,n), s (n,), vh (n,9)); variant 2: u=identity, s=ones, vh fresh",
          "integer scalars SymI (z3 Int terms) with + - * // % == for k-point / b-vector components; np.all over symbolic comparisons = one conjunction",
          "np.zeros(dtype=int) returns an object array in (a) so that symbolic G can be stored", "print silenced"]
 
@@ -596,6 +599,98 @@ def case_object(rec, name, mesh, seed):
 
 
 # ------------------------------------------------------------------------------------------------------------
+# (e) the from_nnkp entry point: .nnkp text written by the harness, neighbour list of the first k-point in a symbolic order
+def nnkp_data(name, mesh, seed):
+    """harness-owned content of a .nnkp file for a concrete lattice: k-points (seeded order), the complete set of independent shells, exact neighbour tables"""
+    sl, sc = concrete_shells(name, mesh, 0)
+    bvec = np.concatenate(sl)                                # shell by shell, ascending |b|
+    shell_of = np.concatenate([[i] * len(x) for i, x in enumerate(sl)])
+    pts = np.array(list(itertools.product(*[range(n) for n in mesh])))
+    kint = pts[np.random.default_rng(seed).permutation(len(pts))]
+    index = {tuple(p): i for i, p in enumerate(kint.tolist())}
+    mp = np.array(mesh)
+    table = {}
+    for ik, k in enumerate(kint):
+        for ib, b in enumerate(bvec):
+            t = k + b
+            table[ik, ib] = (index[tuple((t % mp).tolist())], (t // mp).tolist())
+    return bvec, shell_of, kint, table
+
+
+def nnkp_text(name, mesh, kint, bvec, table, order, seed):
+    """the blocks BKVectors.from_nnkp reads; neighbours of the first k-point in the given order, those of the other k-points in seeded orders of their own"""
+    real = 2 * np.pi * np.linalg.inv(LATTICES[name]).T
+    out = ["begin real_lattice"] + ["  ".join(repr(float(x)) for x in row) for row in real] + ["end real_lattice", "", "begin kpoints", f"  {len(kint)}"]
+    out += ["  ".join(f"{x:14.8f}" for x in k / np.array(mesh)) for k in kint] + ["end kpoints", "", "begin nnkpts", f"  {len(bvec)}"]
+    rng = np.random.default_rng(seed + 1)
+    for ik in range(len(kint)):
+        o = list(order) if ik == 0 else rng.permutation(len(bvec)).tolist()
+        for ib in o:
+            j, G = table[ik, ib]
+            out.append(f"{ik + 1:6d}{j + 1:6d}   {G[0]:4d}{G[1]:4d}{G[2]:4d}")
+    return "\n".join(out + ["end nnkpts", ""])
+
+
+def judge_nnkp(mesh, rl, kint, bvec, table, order, obj):
+    msgs = judge_object(mesh, rl, np.asarray(obj.kpt_grid), obj.wk, obj.bk_cart, obj.bk_grid, obj.G, obj.neighbours)
+    if not np.array_equal(np.asarray(obj.kpt_grid), kint):
+        msgs.append("kpt_grid differs from the k-points of the file")
+    if not np.array_equal(np.asarray(obj.bk_grid), bvec[list(order)]):
+        msgs.append("bk_grid is not in the order of the neighbour list of the file")
+    else:
+        for ik in range(len(kint)):
+            for pos, ib in enumerate(order):
+                j, G = table[ik, ib]
+                if int(obj.neighbours[ik][pos]) != j or list(np.asarray(obj.G[ik][pos]).tolist()) != G:
+                    msgs.append(f"neighbour/G of k={ik}, b={bvec[ib].tolist()} differ from the file")
+                    return msgs
+    return msgs
+
+
+def case_nnkp(rec, name, mesh, seed, model):
+    from symx.tok import MemFS
+    from symx.lifted import sym_choice
+    mesh = tuple(mesh)
+    rl = LATTICES[name]
+    bvec, shell_of, kint, table = nnkp_data(name, mesh, seed)
+    nnb = len(bvec)
+    fs = MemFS()
+    shadow([BK], Np22c(linalg=Lin22c(np.linalg)), print=lambda *a, **k: None, open=fs.open)
+    kt = SymC.var("kmesh_tol", 1e-9, 1e-5)
+    ass = [kt.zreal() >= 1e-9, kt.zreal() <= 1e-5]
+    if model == "swap":                       # shell order with two symbolic positions exchanged (covers every transposition, incl. across shells)
+        i, ai, pi = sym_choice("ni", list(range(nnb)))
+        j, aj, pj = sym_choice("nj", list(range(nnb)))
+        ass += ai + aj + [pi < pj]
+    elif model == "rotate":                   # shell order rotated by a symbolic offset
+        i, ai, pi = sym_choice("ni", list(range(nnb)))
+        ass += ai
+    base = list(range(nnb)) if model != "shuffle" else np.random.default_rng(seed + 7).permutation(nnb).tolist()
+
+    def body(rec):
+        order = list(base)
+        if model == "swap":
+            a, b = int(i.concretize()), int(j.concretize())
+            order[a], order[b] = order[b], order[a]
+        elif model == "rotate":
+            a = int(i.concretize())
+            order = order[a:] + order[:a]
+        rec.witness = lambda env, order=order: dict(test="nnkp", lattice=name, mesh=list(mesh), seed=seed, order=order, kmesh_tol=env.val(kt))
+        fs.files["harness.nnkp"] = nnkp_text(name, mesh, kint, bvec, table, order, seed)
+        try:
+            obj = BK.BKVectors.from_nnkp("harness.nnkp", kmesh_tol=kt, bk_complete_tol=1e-5)
+        except RuntimeError as e:
+            rec.concrete("from_nnkp accepts a consistent .nnkp file", False, detail=str(e)[:120], key="BKVectors.from_nnkp rejects a consistent .nnkp file")
+            return
+        msgs = judge_nnkp(mesh, rl, kint, bvec, table, order, obj)
+        shell_sorted = all(shell_of[order[n]] <= shell_of[order[n + 1]] for n in range(nnb - 1))
+        rec.concrete("from_nnkp object: sum_b w_b b b^T = 1 with its own bk_cart/wk, bk_cart = bk_grid.basis, b->-b closure with equal weights, whole shells, "
+                     "bk_grid / neighbours / G in the order of the file", not msgs, detail=("shell-ordered list: " if shell_sorted else "list not ordered by shells: ") + "; ".join(msgs[:3]),
+                     key="BKVectors.from_nnkp object violates completeness / closure / file order")
+    rec.explore(body, ass, max_forks=400000)
+
+
+# ------------------------------------------------------------------------------------------------------------
 def cases(tier, seed):
     q = tier == "quick"
     out = []
@@ -628,6 +723,11 @@ def cases(tier, seed):
     for name, mesh in [("mono", (2, 3, 4)), ("tric", (2, 3, 4)), ("hex", (2, 3, 4)), ("fcc", (3, 2, 2)), ("bcc", (2, 2, 3)), ("mono", (3, 3, 2))] + \
             ([] if q else [("tric", (4, 3, 2)), ("hex", (3, 2, 5)), ("sc", (2, 3, 4)), ("ortho", (4, 2, 3)), ("mono", (3, 3, 4))]):
         out.append(Case(f"object: BKVectors.from_kpoints lattice={name} anisotropic mesh={mesh} symbolic kmesh_tol", case_object, dict(name=name, mesh=mesh, seed=seed), timeout=1500))
+    nn = [("hex", (1, 1, 1), "swap"), ("ortho", (2, 2, 1), "swap"), ("sc", (2, 3, 4), "rotate"), ("hex", (2, 2, 1), "shuffle"), ("mono", (2, 3, 4), "shuffle"), ("fcc", (2, 2, 2), "swap")]
+    if not q:
+        nn += [("tric", (1, 1, 1), "swap"), ("mono", (2, 3, 4), "swap"), ("hex", (2, 3, 4), "rotate"), ("ortho", (1, 1, 1), "rotate"), ("tric", (2, 3, 4), "shuffle"), ("bcc", (2, 2, 3), "swap")]
+    for name, mesh, model in nn:
+        out.append(Case(f"nnkp: BKVectors.from_nnkp lattice={name} mesh={mesh} neighbour list of the file: {model}", case_nnkp, dict(name=name, mesh=mesh, seed=seed, model=model), timeout=1500))
     return out
 
 
@@ -720,4 +820,19 @@ def replay(rec):
             return True, f"lattice={w['lattice']} mesh={mesh}: {str(e)[:80]}"
         msgs = judge_object(mesh, rl, obj.kpt_grid, obj.wk, obj.bk_cart, obj.bk_grid, obj.G, obj.neighbours)
         return bool(msgs), f"BKVectors.from_kpoints lattice={w['lattice']} mesh={mesh} kmesh_tol={kt}: " + "; ".join(msgs[:3])
+    if w["test"] == "nnkp":
+        import tempfile, os
+        name, mesh = w["lattice"], tuple(w["mesh"])
+        bvec, shell_of, kint, table = nnkp_data(name, mesh, w["seed"])
+        kt = w["kmesh_tol"] or 1e-7
+        with tempfile.TemporaryDirectory() as d:
+            path = os.path.join(d, "harness.nnkp")
+            open(path, "w").write(nnkp_text(name, mesh, kint, bvec, table, w["order"], w["seed"]))
+            try:
+                with contextlib.redirect_stdout(buf):
+                    obj = BK.BKVectors.from_nnkp(path, kmesh_tol=kt, bk_complete_tol=1e-5)
+            except RuntimeError as e:
+                return True, f"from_nnkp lattice={name} mesh={mesh} order={w['order']}: RuntimeError {str(e)[:80]}"
+        msgs = judge_nnkp(mesh, LATTICES[name], kint, bvec, table, w["order"], obj)
+        return bool(msgs), f"from_nnkp lattice={name} mesh={mesh} neighbour order of the file={w['order']} (shells {shell_of[w['order']].tolist()}): " + "; ".join(msgs[:3])
     raise ValueError(w["test"])
